@@ -7,8 +7,10 @@ import (
 	"fmt"
 	"sort"
 	"strconv"
+	"strings"
 	"testing"
 
+	"github.com/nginx/nginx-gateway-fabric/internal/mode/static/state/dataplane"
 	vu "github.com/nginx/nginx-gateway-fabric/internal/verifutil"
 )
 
@@ -58,6 +60,31 @@ func vsMatchTableCoq(raw string) string {
 }
 
 // vpRunState feeds the whole state to a fresh real handler as one start-up batch.
+// vsServersCoq prints the HTTP and SSL virtual servers of the configuration the real handler built last: port, server
+// name, whether SSL, and the (exact?, path) keys of the path rules in order (input of the C02/PathSel.v model).
+func vsServersCoq(w *vpWorld) string {
+	conf := w.h.GetLatestConfiguration()
+	if conf == nil {
+		return "[]"
+	}
+	var out []string
+	add := func(ssl bool, vss []dataplane.VirtualServer) {
+		for _, vs := range vss {
+			if vs.IsDefault {
+				continue
+			}
+			var rules []string
+			for _, pr := range vs.PathRules {
+				rules = append(rules, vu.Pair(vu.Bool(pr.PathType == dataplane.PathTypeExact), vu.Str(pr.Path)))
+			}
+			out = append(out, vu.Tuple(vu.Z(int64(vs.Port)), vu.Str(vs.Hostname), vu.Bool(ssl), vu.List(rules)))
+		}
+	}
+	add(false, conf.HTTPServers)
+	add(true, conf.SSLServers)
+	return vu.List(out)
+}
+
 func vpRunState(c *vsCluster, plus bool) *vpWorld {
 	w := vpNewWorld(plus)
 	evs := vpBaseEvents()
@@ -86,7 +113,7 @@ func TestVerifC02(t *testing.T) {
 			rq = append(rq, q.Coq())
 		}
 		http := files["/etc/nginx/conf.d/http.conf"]
-		term := vu.App("Case", c.Coq(), vu.Str(http), vsMatchTableCoq(files["/etc/nginx/conf.d/matches.json"]), vu.List(rq))
+		term := vu.App("Case", c.Coq(), vu.Str(http), vsMatchTableCoq(files["/etc/nginx/conf.d/matches.json"]), vu.List(rq), vsServersCoq(w))
 		nroutes := len(c.Routes)
 		human := map[string]any{"cluster": c, "requests": reqs, "http.conf": http, "matches.json": files["/etc/nginx/conf.d/matches.json"]}
 		key := c.Coq()
@@ -94,6 +121,40 @@ func TestVerifC02(t *testing.T) {
 		out.Tally("routes", strconv.Itoa(nroutes))
 		out.Tally("gateways", strconv.Itoa(len(c.Gateways)))
 		out.Tally("http.conf_kb", strconv.Itoa(len(http)/1024))
+	}
+	// location-naming cases: PathPrefix paths with a trailing slash next to their unslashed and Exact twins. Only the
+	// location sets are compared with the model here (no requests: the routing specification does not cover what NGF
+	// does with a trailing slash in a PathPrefix value).
+	nloc := out.Count(60, 600)
+	for i := 0; i < nloc; i++ {
+		r := rng.Fork()
+		c := vsGen(r, 2+(i*4)/nloc)
+		for ri := range c.Routes {
+			for ui := range c.Routes[ri].Rules {
+				for mi := range c.Routes[ri].Rules[ui].Matches {
+					m := &c.Routes[ri].Rules[ui].Matches[mi]
+					if c.Routes[ri].GRPC || m.Path == "/" {
+						continue
+					}
+					m.Path = strings.TrimSuffix(m.Path, "/")
+					switch r.Intn(4) {
+					case 0:
+						m.Exact = false
+						m.Path += "/"
+					case 1:
+						m.Exact = true
+					case 2:
+						m.Exact = false
+					}
+				}
+			}
+		}
+		w := vpRunState(c, false)
+		files := w.Files()
+		http := files["/etc/nginx/conf.d/http.conf"]
+		term := vu.App("Case", c.Coq(), vu.Str(http), vsMatchTableCoq(files["/etc/nginx/conf.d/matches.json"]), "[]", vsServersCoq(w))
+		out.Case(term, map[string]any{"cluster": c, "http.conf": http, "kind": "location naming"}, len(http) > 2000, "loc|"+c.Coq())
+		out.Tally("kind", "location-naming")
 	}
 	out.Close("C02.Check", "")
 }
@@ -135,7 +196,7 @@ func TestVerifC15Pipe(t *testing.T) {
 			rq = append(rq, q.Coq())
 		}
 		http := files["/etc/nginx/conf.d/http.conf"]
-		term := vu.App("Case", c.Coq(), vu.Str(http), vsMatchTableCoq(files["/etc/nginx/conf.d/matches.json"]), vu.List(rq))
+		term := vu.App("Case", c.Coq(), vu.Str(http), vsMatchTableCoq(files["/etc/nginx/conf.d/matches.json"]), vu.List(rq), vsServersCoq(w))
 		out.Case(term, map[string]any{"cluster": c, "requests": reqs, "http.conf": http}, len(http) > 2500, c.Coq())
 		out.Tally("http.conf_kb", strconv.Itoa(len(http)/1024))
 	}
